@@ -500,7 +500,7 @@ impl ExprGen {
     /// expression of type `ty`; `strict` = every operator between the root and here evaluates all
     /// its operands on every row (so a run-time error here is an error of the row in the engine's
     /// column-at-a-time evaluation as well as in the row-by-row reference)
-    pub fn gen(&self, rng: &mut Rng, ty: Ty, depth: u32, strict: bool) -> X {
+    pub fn gen_expr(&self, rng: &mut Rng, ty: Ty, depth: u32, strict: bool) -> X {
         if depth == 0 {
             return self.leaf(rng, ty);
         }
@@ -510,71 +510,74 @@ impl ExprGen {
         match ty {
             Ty::I64 | Ty::I32 => match rng.below(if fall { 14 } else { 10 }) {
                 0 => self.leaf(rng, ty),
-                1 | 2 => X::Bin(*rng.pick(&[Op::Add, Op::Sub, Op::Mul]), b(self.gen(rng, ty, d, strict)), b(self.gen(rng, ty, d, strict))),
-                3 => X::Neg(b(self.gen(rng, ty, d, strict))),
+                1 | 2 => X::Bin(*rng.pick(&[Op::Add, Op::Sub, Op::Mul]), b(self.gen_expr(rng, ty, d, strict)), b(self.gen_expr(rng, ty, d, strict))),
+                3 => X::Neg(b(self.gen_expr(rng, ty, d, strict))),
                 4 => self.case(rng, ty, d),
-                5 => X::Coalesce(vec![self.gen(rng, ty, d, false), self.gen(rng, ty, d, false)]),
-                6 => X::Nullif(b(self.gen(rng, ty, d, false)), b(self.gen(rng, ty, d, false))),
+                5 => X::Coalesce(vec![self.gen_expr(rng, ty, d, false), self.gen_expr(rng, ty, d, false)]),
+                6 => X::Nullif(b(self.gen_expr(rng, ty, d, false)), b(self.gen_expr(rng, ty, d, false))),
                 7 => {
                     if ty == Ty::I64 {
-                        X::Cast(Ty::I64, false, b(self.gen(rng, Ty::I32, d, strict)))
+                        X::Cast(Ty::I64, false, b(self.gen_expr(rng, Ty::I32, d, strict)))
                     } else {
-                        X::Cast(Ty::I32, true, b(self.gen(rng, Ty::I64, d, strict)))
+                        X::Cast(Ty::I32, true, b(self.gen_expr(rng, Ty::I64, d, strict)))
                     }
                 }
-                8 => X::Cast(ty, true, b(self.gen(rng, Ty::Str, d, strict))),
-                9 => X::Cast(ty, false, b(self.gen(rng, Ty::Bool, d, strict))),
-                10 | 11 => X::Bin(*rng.pick(&[Op::Div, Op::Mod]), b(self.gen(rng, ty, d, strict)), b(self.gen(rng, ty, d, strict))),
-                12 => X::Cast(ty, false, b(self.gen(rng, Ty::Str, d, strict))),
+                8 => X::Cast(ty, true, b(self.gen_expr(rng, Ty::Str, d, strict))),
+                9 => X::Cast(ty, false, b(self.gen_expr(rng, Ty::Bool, d, strict))),
+                10 | 11 => X::Bin(*rng.pick(&[Op::Div, Op::Mod]), b(self.gen_expr(rng, ty, d, strict)), b(self.gen_expr(rng, ty, d, strict))),
+                12 => X::Cast(ty, false, b(self.gen_expr(rng, Ty::Str, d, strict))),
                 _ => {
                     if ty == Ty::I32 {
-                        X::Cast(Ty::I32, false, b(self.gen(rng, Ty::I64, d, strict)))
+                        X::Cast(Ty::I32, false, b(self.gen_expr(rng, Ty::I64, d, strict)))
                     } else {
-                        X::Bin(Op::Div, b(self.gen(rng, ty, d, strict)), b(self.leaf(rng, ty)))
+                        X::Bin(Op::Div, b(self.gen_expr(rng, ty, d, strict)), b(self.leaf(rng, ty)))
                     }
                 }
             },
             Ty::Str => match rng.below(7) {
                 0 | 1 => self.leaf(rng, ty),
-                2 => X::Bin(Op::Concat, b(self.gen(rng, ty, d, strict)), b(self.gen(rng, ty, d, strict))),
+                2 => X::Bin(Op::Concat, b(self.gen_expr(rng, ty, d, strict)), b(self.gen_expr(rng, ty, d, strict))),
                 3 => self.case(rng, ty, d),
-                4 => X::Coalesce(vec![self.gen(rng, ty, d, false), self.gen(rng, ty, d, false)]),
-                5 => X::Nullif(b(self.gen(rng, ty, d, false)), b(self.gen(rng, ty, d, false))),
-                _ => X::Cast(Ty::Str, false, b(self.gen(rng, *rng.pick(&[Ty::I64, Ty::I32]), d, strict))),
+                4 => X::Coalesce(vec![self.gen_expr(rng, ty, d, false), self.gen_expr(rng, ty, d, false)]),
+                5 => X::Nullif(b(self.gen_expr(rng, ty, d, false)), b(self.gen_expr(rng, ty, d, false))),
+                _ => {
+                    let t = *rng.pick(&[Ty::I64, Ty::I32]);
+                    X::Cast(Ty::Str, false, b(self.gen_expr(rng, t, d, strict)))
+                }
             },
             Ty::Bool => match rng.below(14) {
                 0 => self.leaf(rng, ty),
                 1 | 2 | 3 => {
                     let t = self.any_ty(rng);
                     let op = if t == Ty::Bool { *rng.pick(&[Op::Eq, Op::Ne]) } else { *rng.pick(&[Op::Eq, Op::Ne, Op::Lt, Op::Le, Op::Gt, Op::Ge]) };
-                    X::Bin(op, b(self.gen(rng, t, d, strict)), b(self.gen(rng, t, d, strict)))
+                    X::Bin(op, b(self.gen_expr(rng, t, d, strict)), b(self.gen_expr(rng, t, d, strict)))
                 }
-                4 => X::Bin(Op::And, b(self.gen(rng, ty, d, false)), b(self.gen(rng, ty, d, false))),
-                5 => X::Bin(Op::Or, b(self.gen(rng, ty, d, false)), b(self.gen(rng, ty, d, false))),
-                6 => X::Not(b(self.gen(rng, ty, d, strict))),
+                4 => X::Bin(Op::And, b(self.gen_expr(rng, ty, d, false)), b(self.gen_expr(rng, ty, d, false))),
+                5 => X::Bin(Op::Or, b(self.gen_expr(rng, ty, d, false)), b(self.gen_expr(rng, ty, d, false))),
+                6 => X::Not(b(self.gen_expr(rng, ty, d, strict))),
                 7 => {
                     let t = self.any_ty(rng);
-                    X::Is("null", rng.chance(1, 2), b(self.gen(rng, t, d, strict)))
+                    X::Is("null", rng.chance(1, 2), b(self.gen_expr(rng, t, d, strict)))
                 }
-                8 => X::Is(*rng.pick(&["true", "false", "unknown"]), rng.chance(1, 2), b(self.gen(rng, Ty::Bool, d, strict))),
+                8 => X::Is(*rng.pick(&["true", "false", "unknown"]), rng.chance(1, 2), b(self.gen_expr(rng, Ty::Bool, d, strict))),
                 9 => {
                     let t = *rng.pick(&[Ty::I64, Ty::I32, Ty::Str]);
                     let n = 1 + rng.below(3) as usize;
-                    let l = (0..n).map(|_| if rng.chance(1, 3) { self.gen(rng, t, 0, false) } else { self.lit(rng, t) }).collect();
-                    X::In(rng.chance(1, 3), b(self.gen(rng, t, d, false)), l)
+                    let l = (0..n).map(|_| if rng.chance(1, 3) { self.gen_expr(rng, t, 0, false) } else { self.lit(rng, t) }).collect();
+                    X::In(rng.chance(1, 3), b(self.gen_expr(rng, t, d, false)), l)
                 }
                 10 => {
                     let t = *rng.pick(&[Ty::I64, Ty::I32, Ty::Str]);
-                    X::Between(rng.chance(1, 4), b(self.gen(rng, t, d, false)), b(self.gen(rng, t, 0, false)), b(self.gen(rng, t, 0, false)))
+                    X::Between(rng.chance(1, 4), b(self.gen_expr(rng, t, d, false)), b(self.gen_expr(rng, t, 0, false)), b(self.gen_expr(rng, t, 0, false)))
                 }
                 11 => {
                     let pat = *rng.pick(&["a%", "%b%", "_", "a_", "%", "", "A%", "%2", "a\\%"]);
                     let pat = if pat.contains('\\') { "ab" } else { pat };
-                    X::Like(rng.chance(1, 4), rng.chance(1, 3), b(self.gen(rng, Ty::Str, d, false)), b(X::Lit(V::Str(pat.into()), Ty::Str)))
+                    X::Like(rng.chance(1, 4), rng.chance(1, 3), b(self.gen_expr(rng, Ty::Str, d, false)), b(X::Lit(V::Str(pat.into()), Ty::Str)))
                 }
                 12 => {
                     let t = self.any_ty(rng);
-                    X::Bin(*rng.pick(&[Op::Distinct, Op::NotDistinct]), b(self.gen(rng, t, d, strict)), b(self.gen(rng, t, d, strict)))
+                    X::Bin(*rng.pick(&[Op::Distinct, Op::NotDistinct]), b(self.gen_expr(rng, t, d, strict)), b(self.gen_expr(rng, t, d, strict)))
                 }
                 _ => self.case(rng, ty, d),
             },
@@ -582,14 +585,14 @@ impl ExprGen {
     }
     fn case(&self, rng: &mut Rng, ty: Ty, d: u32) -> X {
         let n = 1 + rng.below(2) as usize;
-        let els = if rng.chance(2, 3) { Some(Box::new(self.gen(rng, ty, d, false))) } else { None };
+        let els = if rng.chance(2, 3) { Some(Box::new(self.gen_expr(rng, ty, d, false))) } else { None };
         if rng.chance(1, 3) {
             let t = *rng.pick(&[Ty::I64, Ty::Str]);
-            let o = self.gen(rng, t, d, false);
-            let ws = (0..n).map(|_| (self.gen(rng, t, 0, false), self.gen(rng, ty, d, false))).collect();
+            let o = self.gen_expr(rng, t, d, false);
+            let ws = (0..n).map(|_| (self.gen_expr(rng, t, 0, false), self.gen_expr(rng, ty, d, false))).collect();
             X::Case(Some(Box::new(o)), ws, els)
         } else {
-            let ws = (0..n).map(|_| (self.gen(rng, Ty::Bool, d, false), self.gen(rng, ty, d, false))).collect();
+            let ws = (0..n).map(|_| (self.gen_expr(rng, Ty::Bool, d, false), self.gen_expr(rng, ty, d, false))).collect();
             X::Case(None, ws, els)
         }
     }
